@@ -53,9 +53,10 @@ def obs (st : St) (probe : List Bytes) : Res String := do
     let n ← qName d c
     let p ← qParent d c
     let ch ← qChildren d c
+    let de ← qDescendants d c
     let tr ← qTracks d c
     let sub := ",".intercalate (names.map fun nm => s!"{hexBytes nm}:{showOpt (qByParentName d c nm)}")
-    o := o ++ s!" \{{c} n={hexBytes n} p={showOpt p} ch={showIds ch} de={showIds (sortInts (qDescendants d c))} " ++
+    o := o ++ s!" \{{c} n={hexBytes n} p={showOpt p} ch={showIds ch} de={showIds (sortInts de)} " ++
       s!"tr={showIds tr} v={if qValid d c then 1 else 0} sub=[{sub}]}"
   o := o ++ s!" tracks={showIds (sortInts (qAllTracks d))}"
   let nm := ";".intercalate (names.map fun n =>
@@ -190,7 +191,7 @@ def step (st : St) (cmd : String) (args : List String) : St × String :=
       | "name", [] => (st, render ((qName d c).bind fun n => .ok (hexBytes n)))
       | "parent", [] => (st, render ((qParent d c).bind fun p => .ok (showOpt p)))
       | "children", [] => (st, render (resIds (qChildren d c)))
-      | "descendants", [] => (st, s!"ok {showIds (sortInts (qDescendants d c))}")
+      | "descendants", [] => (st, render (resIds ((qDescendants d c).bind fun l => .ok (sortInts l))))
       | "tracks", [] => (st, render (resIds (qTracks d c)))
       | "sub_by_name", [n] =>
         match parseHexBytes n with
